@@ -60,7 +60,7 @@ CLAIMED = {
              "live blocks, and of AlignedVector<T> (|T| 1,4,12,16,64) operations against std::vector, with allocation failure injected at a "
              "seeded allocation number; oracle: null-or-aligned, full-extent pattern write/read (ASan checks the extent), neighbour integrity "
              "after every free, 64-byte data() after every reallocating step, model equality, bad_alloc exactly when an allocation failed, "
-             "length_error for max_size()+1. Second lane: the same histories fault-free against the real tbbmalloc back end.",
+             "length_error for max_size()+1. Second lane: the same histories fault-free against the real tbbmalloc back end. Third lane: the same histories without sanitizer on the real glibc allocator (multi-MiB blocks next to small ones).",
              design="5 (C14)", note="Trusted: ASan/UBSan (gcc 12) for extent checking in the _mm_malloc lane; the tbbmalloc lane's memory is not ASan-tracked (only alignment, pattern and model checks apply there) and no failure can be injected inside tbbmalloc. Seeded sampling.",
              technique="deterministic simulation with fault injection: single task over a simulated allocator device (seeded histories x injected allocation failures), reference-model oracle, decision-sequence shrinking, exact replay"),
  "C15": dict(text="Single task: seeded typed value sequences written through BufferWriter / WriteSizeCalculator, carried over a byte channel that "
